@@ -160,9 +160,10 @@ if __name__ == "__main__":
     rng = random.Random(13)
     err = os.fdopen(os.dup(2), "w")
     c13._silence()
-    a = part_a(rng, quick)
-    err.write("strax from %s\n(a) single lazy mailbox: %s\n" % (os.path.dirname(strax.__file__), json.dumps(a)))
-    err.flush()
+    # (b) first: it forks worker processes, which must happen before this process has pooled scheduler threads
     b = part_b(rng, quick)
-    err.write("(b) pipelines, lazy: %s\n" % json.dumps(b))
+    err.write("strax from %s\n(b) pipelines, lazy: %s\n" % (os.path.dirname(strax.__file__), json.dumps(b)))
+    err.flush()
+    a = part_a(rng, quick)
+    err.write("(a) single lazy mailbox: %s\n" % json.dumps(a))
     err.flush()
